@@ -12,12 +12,30 @@ import json
 import sys
 import warnings
 
+import copy
+import pickle
+
 import numpy as np
 
-import pydl
-from pydl import pcomp
-from pydl.pydlutils.math import computechi2
-from pydl.pydlspec2d.spec1d import HMF, pca_solve
+
+def global_state():
+    """process-global numpy state a library call must leave alone (class C)"""
+    st = np.random.get_state()
+    return {'geterr': dict(np.geterr()), 'printoptions': repr(sorted(np.get_printoptions().items())),
+            'rng': (st[0], st[1].tobytes(), st[2], st[3], st[4])}
+
+
+def global_diff(before, after):
+    return sorted(k for k in before if before[k] != after[k])
+
+
+np.random.seed(20260930)
+_G0 = global_state()
+import pydl                                                   # noqa: E402  (the way a user imports the package)
+from pydl import pcomp                                        # noqa: E402
+from pydl.pydlutils.math import computechi2                   # noqa: E402
+from pydl.pydlspec2d.spec1d import HMF, pca_solve             # noqa: E402
+IMPORT_SIDE_EFFECTS = global_diff(_G0, global_state())
 
 
 def err(e):
@@ -33,6 +51,110 @@ def arr(a, dt=None):
             raise ValueError('harness: values not representable in %s' % dt)
         return y
     return x
+
+
+def lay(x, how):
+    """the same values in another memory layout (class B); returns (array, base-or-None)"""
+    if not how or how == 'C':
+        return x, None
+    if how == 'F':
+        return np.asfortranarray(x), None
+    if how == 'rev':
+        if x.ndim == 1:
+            return x[::-1].copy()[::-1], None
+        return x[::-1, ::-1].copy()[::-1, ::-1], None
+    if how == 'strided':
+        if x.ndim == 1:
+            big = np.full((3 * x.shape[0] + 2,), 7, dtype=x.dtype)
+            v = big[1::3][:x.shape[0]]
+        else:
+            big = np.full((2 * x.shape[0] + 1, 3 * x.shape[1] + 2), 7, dtype=x.dtype)
+            v = big[1::2, 2::3][:x.shape[0], :x.shape[1]]
+        v[...] = x
+        return v, big
+    if how == 'readonly':
+        y = x.copy()
+        y.setflags(write=False)
+        return y, None
+    raise ValueError('harness: unknown layout %r' % (how,))
+
+
+def opt(v, style):
+    """an option value written the way a caller might (class E): bool / int 0,1 / None for False / numpy bool"""
+    if style == 'int':
+        return int(bool(v))
+    if style == 'npbool':
+        return np.bool_(bool(v))
+    if style == 'none':
+        return None if not v else 1
+    return bool(v)
+
+
+def shares(value, arrays):
+    return any(isinstance(value, np.ndarray) and isinstance(a, np.ndarray) and np.shares_memory(value, a) for a in arrays)
+
+
+def same(a, b):
+    a, b = np.asarray(a), np.asarray(b)
+    return a.shape == b.shape and np.array_equal(a, b, equal_nan=True)
+
+
+def reuse_scenario(build, names, fresh_inputs, edit):
+    """class A / H on lazy-attribute objects.  `build(*arrays)` makes an object from caller-owned arrays; `fresh_inputs()` gives
+    new copies of the arrays; `edit(arrays)` changes them in place (to another valid input).  Every result is compared bit for
+    bit with an object built from fresh copies of the values the arrays hold at that moment.  Returns a list of findings."""
+    bad = []
+
+    def read(o):
+        return {n: np.array(getattr(o, n), copy=True) for n in names}
+
+    def differs(v, w):
+        return [n for n in names if not same(v[n], w[n])]
+    arrs = fresh_inputs()
+    ref = read(build(*fresh_inputs()))
+    o1 = build(*arrs)
+    v1 = read(o1)
+    if differs(v1, ref):
+        bad.append('first object on these arrays differs from an object on copies: %s' % differs(v1, ref))
+    o2 = build(*arrs)                      # same arrays, first object still alive
+    v2 = read(o2)
+    if differs(v2, ref):
+        bad.append('second object on the SAME arrays differs: %s' % differs(v2, ref))
+    al = [n for n in names if shares(getattr(o2, n), arrs)]
+    if al:
+        bad.append('attributes share memory with the arguments: %s' % al)
+    snap = [a.tobytes() for a in arrs]
+    for n in names:                        # the caller edits what it got back
+        v = getattr(o2, n)
+        if isinstance(v, np.ndarray) and v.flags.writeable and v.ndim:
+            v += 1
+    if [a.tobytes() for a in arrs] != snap:
+        bad.append('editing the returned attributes changed the arguments')
+    if differs(read(o1), ref):
+        bad.append('editing the attributes of one object changed those of another: %s' % differs(read(o1), ref))
+    # derived objects (class H): deep copy and pickle round trip of an unread and of a fully read object
+    for label, mk in (('deepcopy', copy.deepcopy), ('pickle', lambda o: pickle.loads(pickle.dumps(o)))):
+        try:
+            fresh = build(*fresh_inputs())
+            d0 = read(mk(fresh))
+            d1 = read(mk(o1))
+        except Exception as e:  # noqa: BLE001
+            bad.append('%s of the object raised %s' % (label, type(e).__name__))
+            continue
+        if differs(d0, ref) or differs(d1, ref):
+            bad.append('%s of the object has other attributes: %s' % (label, differs(d0, ref) + differs(d1, ref)))
+    # the caller changes its arrays in place, then builds a new object from the same arrays
+    if not all(a.flags.writeable for a in arrs):
+        return bad
+    edit(arrs)
+    if differs(read(o1), ref):
+        bad.append('attributes already read moved when the caller changed its arrays: %s' % differs(read(o1), ref))
+    ref2 = read(build(*fresh_inputs([np.array(a, copy=True) for a in arrs])))
+    v3 = read(build(*arrs))
+    if differs(v3, ref2):
+        bad.append('object built from the same arrays after the caller changed them in place differs from one on copies: %s'
+                   % differs(v3, ref2))
+    return bad
 
 
 def tolist(a):
@@ -161,6 +283,53 @@ def read_orders(make, orders):
     return first, bad, sorted(changed)
 
 
+def observe():
+    """inputs OUTSIDE the quantifier of C15 (lists, NaN / inf, rank-deficient, 1-D): what the code under test does with them is
+    recorded in the evidence, never judged"""
+    rs = np.random.RandomState(7)
+    A = np.round(rs.uniform(-2, 2, size=(6, 2)) * 8) / 8
+    b = np.round(rs.uniform(-2, 2, size=6) * 8) / 8
+    sq = np.ones(6)
+    sq[2] = 0
+    x = np.round(rs.uniform(-2, 2, size=(8, 3)) * 8) / 8
+
+    def outcome(fn):
+        try:
+            with np.errstate(all='ignore'):
+                v = fn()
+            v = np.asarray(v, dtype='d')
+            return 'finite' if np.all(np.isfinite(v)) else 'non-finite values, no exception'
+        except Exception as e:  # noqa: BLE001
+            return type(e).__name__
+
+    def withval(arr_, idx, val):
+        y = arr_.copy()
+        y[idx] = val
+        return y
+    return {
+        'computechi2(lists)': outcome(lambda: computechi2(b.tolist(), sq.tolist(), A.tolist()).acoeff),
+        'computechi2(NaN in b at a zero-weight point)': outcome(lambda: computechi2(withval(b, 2, np.nan), sq, A).acoeff),
+        'computechi2(NaN in b at a weighted point)': outcome(lambda: computechi2(withval(b, 1, np.nan), sq, A).acoeff),
+        'computechi2(NaN weight)': outcome(lambda: computechi2(b, withval(sq, 1, np.nan), A).acoeff),
+        'computechi2(inf weight)': outcome(lambda: computechi2(b, withval(sq, 1, np.inf), A).acoeff),
+        'computechi2(negative weight)': outcome(lambda: computechi2(b, withval(sq, 1, -1.0), A).acoeff),
+        'computechi2(under-determined 2 x 3)': outcome(lambda: computechi2(b[:2], sq[:2], np.round(rs.uniform(-2, 2, size=(2, 3)) * 8) / 8).acoeff),
+        'computechi2(two equal columns)': outcome(lambda: computechi2(b, sq, A[:, [0, 0]]).acoeff),
+        'computechi2(1-D amatrix)': outcome(lambda: computechi2(b, sq, A[:, 0]).acoeff),
+        'pcomp(list)': outcome(lambda: pcomp(x.tolist()).eigenvalues),
+        'pcomp(NaN in data)': outcome(lambda: pcomp(withval(x, (1, 1), np.nan)).eigenvalues),
+        'pcomp(one observation)': outcome(lambda: pcomp(x[:1]).eigenvalues),
+        'pcomp(constant column, correlation)': outcome(lambda: pcomp(withval(x, (slice(None), 1), 2.0)).eigenvalues),
+        'pcomp(1-D)': outcome(lambda: pcomp(x[:, 0]).eigenvalues),
+        'pca_solve(lists)': outcome(lambda: pca_solve(np.abs(x).tolist(), np.ones((8, 3)).tolist(), nkeep=1)['acoeff']),
+        'pca_solve(NaN flux at a masked pixel)': outcome(lambda: pca_solve(withval(np.abs(x) + 1, (1, 1), np.nan), withval(np.ones((8, 3)), (1, 1), 0.0), nkeep=1, niter=2)['acoeff']),
+        'pca_solve(one spectrum)': outcome(lambda: pca_solve(np.abs(x[:1]) + 1, np.ones((1, 3)), nkeep=1)['flux']),
+        'HMF(lists).solve()': outcome(lambda: HMF((np.abs(x) + 1).tolist(), np.ones((8, 3)).tolist(), K=1, n_iter=1, seed=1).solve()['flux']),
+        'HMF(NaN spectrum value).solve()': outcome(lambda: HMF(withval(np.abs(x) + 1, (1, 1), np.nan), np.ones((8, 3)), K=1, n_iter=1, seed=1).solve()['flux']),
+        'HMF(one spectrum).solve()': outcome(lambda: HMF(np.abs(x[:1]) + 1, np.ones((1, 3)), K=1, n_iter=1, seed=1).solve()['flux']),
+    }
+
+
 def call(c):
     f = c['f']
     try:
@@ -168,40 +337,79 @@ def call(c):
             warnings.simplefilter('ignore')
             if f == 'chi2':
                 dts = c.get('dtypes') or {}
+                L = c.get('layout') or {}
                 b, sq, A = arr(c['b'], dts.get('b')), arr(c['sq'], dts.get('sq')), arr(c['A'], dts.get('A'))
                 if c.get('one_d'):
                     A = A[:, 0]
                 names = ['acoeff', 'chi2', 'yfit', 'dof', 'covar', 'var']
+                g0 = global_state()
+
+                def inputs(values=None):
+                    vb, vs, vA = values if values is not None else (b, sq, A)
+                    return [lay(vb.copy(), L.get('b'))[0], lay(vs.copy(), L.get('sq'))[0], lay(vA.copy(), L.get('A'))[0]]
 
                 def make():
-                    b1, s1, A1 = b.copy(), sq.copy(), A.copy()
-                    return computechi2(b1, s1, A1), Guard(bvec=b1, sqivar=s1, amatrix=A1)
+                    bases = []
+                    got = []
+                    for x_, how in ((b, L.get('b')), (sq, L.get('sq')), (A, L.get('A'))):
+                        v_, base = lay(x_.copy(), how)
+                        got.append(v_)
+                        bases.append(base)
+                    b1, s1, A1 = got
+                    return computechi2(b1, s1, A1), Guard(bvec=b1, sqivar=s1, amatrix=A1, bvec_base=bases[0],
+                                                          sqivar_base=bases[1], amatrix_base=bases[2])
                 v, bad, changed = read_orders(make, [names] + [o_ for o_ in c.get('orders', []) if sorted(o_) == sorted(names)])
-                o1 = computechi2(b.copy(), sq.copy(), A.copy())
+                o1 = computechi2(*inputs())
+
+                def edit(arrs):
+                    arrs[0] *= 2                       # b doubled, weights halved, A negated: still full rank, still exact
+                    if arrs[1].dtype.kind == 'f':
+                        arrs[1] *= 0.5
+                    arrs[2] *= -1
+                reuse = reuse_scenario(computechi2, names, inputs, edit)
                 out = {'acoeff': tolist(v['acoeff']), 'chi2': float(v['chi2']), 'yfit': tolist(v['yfit']), 'dof': int(v['dof']),
                        'covar': tolist(v['covar']), 'var': tolist(v['var']), 'order_dependent': bad, 'args_changed': changed,
+                       'reuse': reuse, 'global_changed': global_diff(g0, global_state()),
                        'result_dtypes': {k: str(np.asarray(getattr(o1, k)).dtype) for k in names}}
                 if not finite(*[v[k] for k in names]):
                     return {'err': 'nonfinite'}
                 return {'ok': out}
             if f == 'pcomp':
                 x = arr(c['x'], c.get('dtype'))
+                how = c.get('layout')
+                style = c.get('opt_style')
                 names = ['eigenvalues', 'coefficients', 'derived', 'variance']
+                g0 = global_state()
+
+                def build(x1):
+                    st, cv = opt(c['standardize'], style), opt(c['covariance'], style)
+                    if c.get('positional'):
+                        return pcomp(x1, st, cv)
+                    return pcomp(x1, standardize=st, covariance=cv)
 
                 def make():
-                    x1 = x.copy()
-                    return pcomp(x1, standardize=bool(c['standardize']), covariance=bool(c['covariance'])), Guard(x=x1)
+                    x1, base = lay(x.copy(), how)
+                    return build(x1), Guard(x=x1, x_base=base)
                 v, bad, changed = read_orders(make, [names] + [o_ for o_ in c.get('orders', []) if sorted(o_) == sorted(names)])
+
+                def edit(arrs):
+                    arrs[0][...] = arrs[0][::-1].copy() * 2      # observations reversed and doubled
+                reuse = reuse_scenario(build, names, lambda values=None: [lay((values[0] if values else x).copy(), how)[0]], edit)
                 out = {'eigenvalues': tolist(v['eigenvalues']), 'coefficients': tolist(v['coefficients']),
                        'derived': tolist(v['derived']), 'variance': tolist(v['variance']),
-                       'input_unchanged': not changed, 'order_dependent': bad, 'args_changed': changed}
+                       'input_unchanged': not changed, 'order_dependent': bad, 'args_changed': changed,
+                       'reuse': reuse, 'global_changed': global_diff(g0, global_state())}
                 if not finite(*[v[k] for k in names]):
                     return {'err': 'nonfinite', 'eigenvalues': [repr(q) for q in np.asarray(v['eigenvalues']).tolist()]}
                 return {'ok': out}
             if f == 'hmf_step':
-                s, w, a, g = arr(c['s'], c.get('dtype')), arr(c['w'], c.get('dtype')), arr(c['a']), arr(c['g'])
-                h = HMF(s.copy(), w.copy(), K=a.shape[1], epsilon=c.get('eps'), nonnegative=bool(c.get('nonnegative', False)))
-                h.a, h.g = a.copy(), g.copy()
+                L = c.get('layout') or {}
+                s, w = lay(arr(c['s'], c.get('dtype')), L.get('s'))[0], lay(arr(c['w'], c.get('dtype')), L.get('w'))[0]
+                a, g = lay(arr(c['a']), L.get('a'))[0], lay(arr(c['g']), L.get('g'))[0]
+                g0 = global_state()
+                h = HMF(lay(s.copy(), L.get('s'))[0], lay(w.copy(), L.get('w'))[0], K=a.shape[1], epsilon=c.get('eps'),
+                        nonnegative=opt(c.get('nonnegative', False), c.get('opt_style')))
+                h.a, h.g = lay(a.copy(), L.get('a'))[0], lay(g.copy(), L.get('g'))[0]
                 out = {}
                 out['badness'] = float(h.badness())
                 out['normbase'] = tolist(h.normbase())
@@ -211,6 +419,12 @@ def call(c):
                 out['gstep'] = tolist(ng)
                 out['astepnn'] = tolist(h.astepnn())
                 out['gstepnn'] = tolist(h.gstepnn())
+                # a step has no memory: called again on the same state it returns the same bits, and what it returned does not
+                # alias the state
+                out['repeat_identical'] = bool(same(h.astep(), na) and same(h.gstep(), ng) and same(h.astepnn(), out['astepnn'])
+                                               and same(h.gstepnn(), out['gstepnn']))
+                out['result_aliases_state'] = bool(shares(na, [h.a, h.g, h.spectra, h.invvar]) or shares(ng, [h.a, h.g, h.spectra, h.invvar]))
+                out['global_changed'] = global_diff(g0, global_state())
                 out['state_unchanged'] = bool(np.array_equal(h.a, a) and np.array_equal(h.g, g) and
                                               np.array_equal(h.spectra, s) and np.array_equal(h.invvar, w))
                 h.a = na
@@ -223,29 +437,47 @@ def call(c):
                 return {'ok': out}
             if f == 'hmf_solve':
                 s, w = arr(c['s'], c.get('dtype')), arr(c['w'], c.get('dtype'))
+                L = c.get('layout') or {}
+                style = c.get('opt_style')
+
+                def kwargs():
+                    kw = dict(K=c['K'], n_iter=c['n_iter'], seed=c['seed'], nonnegative=opt(c['nonnegative'], style), epsilon=c.get('eps'))
+                    if style == 'npbool':          # numpy scalars where Python numbers are usual
+                        kw.update(K=np.int64(c['K']), seed=np.int64(c['seed']) if c['seed'] < 2 ** 31 else np.uint32(c['seed']),
+                                  n_iter=None if c['n_iter'] is None else np.int64(c['n_iter']))
+                    if style == 'int':             # floats / explicit defaults
+                        kw.update(n_iter=None if c['n_iter'] is None else float(c['n_iter']), verbose=False)
+                        if c.get('eps') == 0:
+                            kw.update(epsilon=False)
+                    return kw
+
+                def data(vs=None, vw=None):
+                    return lay((s if vs is None else vs).copy(), L.get('s'))[0], lay((w if vw is None else vw).copy(), L.get('w'))[0]
                 runs = []
                 for _rep in range(2):
                     # the two runs start from DIFFERENT global RNG states: only the seed argument may make them agree
                     np.random.seed(1234567 + 7919 * _rep)
                     np.random.random(5 + 3 * _rep)
-                    s1, w1 = s.copy(), w.copy()
-                    h = RecordingHMF(s1, w1, K=c['K'], n_iter=c['n_iter'], seed=c['seed'],
-                                     nonnegative=bool(c['nonnegative']), epsilon=c.get('eps'))
+                    s1, w1 = data()
+                    ge0 = global_state()
+                    h = RecordingHMF(s1, w1, **kwargs())
                     d = h.solve()
+                    ge1 = global_state()
                     passes = None
                     if _rep == 0:
                         passes, npass, names = loop_passes(h, d['acoeff'], d['flux'], bool(c['nonnegative']), c.get('trace_passes', []))
                         passes = {'passes': passes, 'n_passes': npass, 'spectra': tolist(h.spectra), 'invvar': tolist(h.invvar),
                                   'n_init_nn': sum(1 for _n in names[:names.index('gstepnn')] if _n == 'astepnn') - 1 if c['nonnegative'] and 'gstepnn' in names else 0}
                     runs.append({'a': d['acoeff'], 'g': d['flux'], 'trace': h.trace, 'loop': passes,
+                                 'global_changed': [k for k in global_diff(ge0, ge1) if k != 'rng'],
+                                 'aliases': bool(shares(d['acoeff'], [s1, w1]) or shares(d['flux'], [s1, w1])),
                                  'inputs_unchanged': bool(np.array_equal(s1, s) and np.array_equal(w1, w)),
                                  'rms': tolist(np.sqrt((d['flux'] ** 2).mean(1)))})
                 r0, r1 = runs
                 # histories: several objects created BEFORE any is solved, other users of numpy's global generator in
                 # between; then the same object solved again after the caller edited the arrays it got back
                 def mk():
-                    return RecordingHMF(s.copy(), w.copy(), K=c['K'], n_iter=c['n_iter'], seed=c['seed'],
-                                        nonnegative=bool(c['nonnegative']), epsilon=c.get('eps'))
+                    return RecordingHMF(*data(), **kwargs())
                 a0, g0 = np.array(r0['a'], copy=True), np.array(r0['g'], copy=True)
                 hs = [mk(), mk()]
                 np.random.random(4)
@@ -266,16 +498,45 @@ def call(c):
                         hist.append('solved, returned arrays edited in place, solved again')
                 except Exception as e:  # noqa: BLE001
                     hist.append('solved, returned arrays edited in place, solve() again raised %s' % type(e).__name__)
+                # class A: the caller changes the arrays it handed over (in place, to another valid data set: spectra in the
+                # reverse order) -- before the first solve(), and between two solve() calls of the same object.  Whether the
+                # object follows the caller's arrays or keeps the data it first saw is not promised; what it returns must be
+                # the answer for ONE of the two data sets (bit for bit, fixed seed), never a mixture.
+                def plain(vs, vw):
+                    d_ = HMF(*data(vs, vw), **kwargs()).solve()
+                    return d_['acoeff'], d_['flux']
+                s_new, w_new = s[::-1].copy(), w[::-1].copy()
+                old, new = (a0, g0), plain(s_new, w_new)
+
+                def one_of(d_):
+                    return any(np.array_equal(d_['acoeff'], t[0]) and np.array_equal(d_['flux'], t[1]) for t in (old, new))
+                s2, w2 = data()
+                if s2.flags.writeable:
+                    hm = HMF(s2, w2, **kwargs())
+                    s2[...] = s_new
+                    w2[...] = w_new
+                    if not one_of(hm.solve()):
+                        hist.append("caller's arrays changed in place between construction and solve(): the result is neither the answer for the old nor for the new data")
+                    s2[...] = s
+                    w2[...] = w
+                    if not one_of(hm.solve()):
+                        hist.append("caller's arrays changed in place between two solve() calls: the result is neither the answer for the old nor for the new data")
                 out = {'identical': bool(np.array_equal(r0['a'], r1['a']) and np.array_equal(r0['g'], r1['g'])),
-                       'history_dependent': hist,
+                       'history_dependent': hist, 'global_changed': r0['global_changed'], 'result_aliases_input': r0['aliases'],
                        'shape_a': list(r0['a'].shape), 'shape_g': list(r0['g'].shape),
                        'inputs_unchanged': r0['inputs_unchanged'] and r1['inputs_unchanged'],
                        'min_a': float(np.min(r0['a'])), 'min_g': float(np.min(r0['g'])),
                        'finite': finite(r0['a'], r0['g']), 'rms': r0['rms'], 'trace': r0['trace'], 'loop': r0['loop']}
                 return {'ok': out}
             if f == 'pca':
-                flux, ivar = arr(c['flux'], c.get('dtype')), arr(c['ivar'], c.get('dtype'))
-                f0, i0 = flux.copy(), ivar.copy()
+                L = c.get('layout') or {}
+                flux, ivar = lay(arr(c['flux'], c.get('dtype')), L.get('flux'))[0], lay(arr(c['ivar'], c.get('dtype')), L.get('ivar'))[0]
+                f0, i0 = np.array(flux, copy=True), np.array(ivar, copy=True)
+                npint = (lambda v: v if v is None else np.int64(v)) if c.get('opt_style') == 'npbool' else (lambda v: v)
+                kw = dict(nkeep=npint(c['nkeep']), niter=npint(c.get('niter', 10)), maxiter=npint(c.get('maxiter', 0)), nreturn=npint(c.get('nreturn')))
+                if c.get('opt_style') == 'int':
+                    kw['verbose'] = False
+                g0 = global_state()
                 # observe what pca_solve hands to pcomp in every inner pass (the class is looked up in the package at call time)
                 seen = []
                 orig = pydl.pcomp
@@ -288,8 +549,7 @@ def call(c):
                         super().__init__(x, *a, **k)
                 pydl.pcomp = SeenPcomp
                 try:
-                    d = pca_solve(flux, ivar, nkeep=c['nkeep'], niter=c.get('niter', 10), maxiter=c.get('maxiter', 0),
-                                  nreturn=c.get('nreturn'))
+                    d = pca_solve(flux, ivar, **kw)
                 finally:
                     pydl.pcomp = orig
                 passes = [{'x': tolist(o.seen_x.T), 'pres': tolist(o.derived), 'eigenvalues': tolist(o.eigenvalues),
@@ -303,21 +563,41 @@ def call(c):
                 keep = {k: np.array(d[k], copy=True) for k in ('flux', 'acoeff', 'eigenval')}
                 for k in ('flux', 'acoeff'):
                     d[k] += 1
-                d_again = pca_solve(f0.copy(), i0.copy(), nkeep=c['nkeep'], niter=c.get('niter', 10), maxiter=c.get('maxiter', 0),
-                                    nreturn=c.get('nreturn'))
+                gchanged = global_diff(g0, global_state())
+                unchanged_first = bool(same(flux, f0) and same(ivar, i0))
+                aliases = sorted(k for k in ('flux', 'acoeff', 'eigenval', 'usemask', 'outmask') if shares(d.get(k), [flux, ivar]))
+                d_again = pca_solve(lay(f0.copy(), L.get('flux'))[0], lay(i0.copy(), L.get('ivar'))[0], **kw)
                 repeatable = all(np.array_equal(keep[k], d_again[k]) for k in keep)
+                # class A: the SAME arrays handed in again (what the first call left in them), then again after the caller
+                # changed them in place; each answer must be the one a call on fresh copies of the current values gives
+                reuse = []
+                d_same = pca_solve(flux, ivar, **kw)
+                if not all(np.array_equal(keep[k], d_same[k]) for k in keep):
+                    reuse.append('second call on the same arrays differs from the first')
+                if flux.flags.writeable and ivar.flags.writeable and flux.dtype.kind == 'f':
+                    flux[...] = flux[::-1].copy() * 2
+                    ivar[...] = ivar[::-1].copy()
+                    d_new = pca_solve(flux, ivar, **kw)
+                    d_ref = pca_solve(lay(np.array(flux, copy=True), L.get('flux'))[0], lay(np.array(ivar, copy=True), L.get('ivar'))[0], **kw)
+                    if not all(np.array_equal(d_new[k], d_ref[k]) for k in keep):
+                        reuse.append('call on the same arrays after the caller changed them in place differs from a call on copies')
+                    flux[...] = f0
+                    ivar[...] = i0
                 d = dict(d, **keep)
                 out = {'flux': tolist(d['flux']), 'acoeff': tolist(d['acoeff']), 'eigenval': tolist(d['eigenval']),
                        'usemask': [int(v) for v in np.asarray(d['usemask']).tolist()],
-                       'flux_dtype': str(d['flux'].dtype), 'repeatable': bool(repeatable),
+                       'flux_dtype': str(d['flux'].dtype), 'repeatable': bool(repeatable), 'reuse': reuse,
+                       'global_changed': gchanged, 'result_aliases_input': aliases,
                        'outmask': np.asarray(d['outmask'], dtype='d').tolist(), 'n_pcomp_calls': len(seen),
                        'flux_is_derived': flux_is_derived,
                        'passes': [dict(passes[k], k=k, x_next=(passes[k + 1]['x'] if k + 1 < len(passes) else None))
                                   for k in sorted(set(kk % len(passes) for kk in c.get('trace_passes', [])))] if passes else [],
-                       'inputs_unchanged': bool(np.array_equal(flux, f0) and np.array_equal(ivar, i0))}
+                       'inputs_unchanged': unchanged_first}
                 if not finite(d['flux'], d['acoeff'], d['eigenval']):
                     return {'err': 'nonfinite'}
                 return {'ok': out}
+            if f == 'observe':
+                return {'ok': observe()}
             return {'err': 'BadCall'}
     except Exception as e:  # noqa: BLE001 - the error class is the observation
         import traceback
@@ -331,7 +611,7 @@ def main():
     real_stdout = sys.stdout
     sys.stdout = sys.stderr          # astropy's logger prints INFO records to sys.stdout
     try:
-        out = {'pydl_file': pydl.__file__, 'results': [call(c) for c in calls]}
+        out = {'pydl_file': pydl.__file__, 'results': [call(c) for c in calls], 'import_side_effects': IMPORT_SIDE_EFFECTS}
     finally:
         sys.stdout = real_stdout
     json.dump(out, sys.stdout)
